@@ -20,4 +20,14 @@ def run(tier):
     r.vacuity = []
     r.seconds = time.time() - t0
     reps.append(r)
+    from .. import deductive
+    from ..contracts import lossgrad as LG
+    for rel, q, c, tag in LG.ITEMS:
+        if tag == 'C18':
+            reps.append(deductive.verify_function(rel, q, c, hooks=LG.OneCellHooks(), module_env=LG.ENV, prefix='%s::%s[one-cell instance]' % (rel, q)))
     return reps
+
+
+def replay(prop, ob):
+    from ..contracts import lossgrad as LG
+    return LG.replay(prop, ob)
